@@ -3,6 +3,7 @@ model, canonicalising implementation results, and comparing the two."""
 import math
 import os
 import subprocess
+import sys
 from fractions import Fraction
 
 HERE = os.path.dirname(os.path.abspath(__file__))
@@ -92,9 +93,14 @@ def run_model(cases):
     return [parse_out(l) for l in lines]
 
 
-def canon(v):
+def canon(v, exact=False):
     """canonicalise an implementation result: nested lists of python floats /
-    bools / None / Err"""
+    bools / None / Err.
+    exact=True (results of an exact execution, harness/exact.py): exact numbers
+    (exact.Ex, Fraction, integers) become Fractions, a poisoned Ex becomes nan,
+    and floats - values that some step of the library computed in binary64 -
+    stay floats, so that `agree` knows which leaves may be compared with ==.
+    With exact=False an Ex is seen through its float view."""
     import numpy as np
     if isinstance(v, Err):
         return v
@@ -103,22 +109,39 @@ def canon(v):
     if isinstance(v, (bool, np.bool_)):
         return bool(v)
     if isinstance(v, np.ndarray):
-        return [canon(x) for x in v.tolist()]
+        return [canon(x, exact) for x in v.tolist()]
     if isinstance(v, (list, tuple)):
-        return [canon(x) for x in v]
+        return [canon(x, exact) for x in v]
     if isinstance(v, Fraction):
-        return float(v)
+        return v if exact else float(v)
     if isinstance(v, (int, float, np.integer, np.floating)):
+        if exact and isinstance(v, (int, np.integer)):
+            return Fraction(int(v))
+        return float(v)
+    if "exact" in sys.modules and isinstance(v, sys.modules["exact"].Ex):
+        if exact and not v.is_poison():
+            return v.v
         return float(v)
     if hasattr(v, "spikes") and hasattr(v, "t_start"):
+        if exact:
+            # SpikeTrain stores its edges as float(edge): copies of the inputs, which the
+            # adapters checked to be binary64 numbers - their exact values are meant
+            return [canon(v.spikes, True), _edge_exact(v.t_start), _edge_exact(v.t_end)]
         return [canon(v.spikes), float(v.t_start), float(v.t_end)]
     if hasattr(v, "mp") and hasattr(v, "x"):
-        return [canon(v.x), canon(v.y), canon(v.mp)]
+        return [canon(v.x, exact), canon(v.y, exact), canon(v.mp, exact)]
     if hasattr(v, "y1") and hasattr(v, "x"):
-        return [canon(v.x), canon(v.y1), canon(v.y2)]
+        return [canon(v.x, exact), canon(v.y1, exact), canon(v.y2, exact)]
     if hasattr(v, "y") and hasattr(v, "x"):
-        return [canon(v.x), canon(v.y)]
+        return [canon(v.x, exact), canon(v.y, exact)]
     raise TypeError("cannot canonicalise %r" % (type(v),))
+
+
+def _edge_exact(x):
+    c = canon(x, True)
+    if isinstance(c, float) and not (math.isnan(c) or math.isinf(c)):
+        return Fraction(c)
+    return c
 
 
 def close(a, b, tol=TOL):
@@ -127,8 +150,12 @@ def close(a, b, tol=TOL):
     return abs(a - b) <= tol * max(1.0, abs(a), abs(b))
 
 
-def agree(m, i, tol=TOL, path=""):
-    """m: model value (Fractions), i: canonical implementation value (floats).
+def agree(m, i, tol=TOL, path="", stats=None):
+    """m: model value (Fractions), i: canonical implementation value (floats; in
+    exact mode Fractions, see canon).  An implementation Fraction is compared
+    with ==, an implementation float with the tolerance; nan never agrees with a
+    number.  stats: optional dict, counts the leaves compared each way
+    (keys "eq" and "tol").
     returns None if they agree, else a string describing the first difference"""
     if isinstance(m, Err) or isinstance(i, Err):
         if isinstance(m, Err) and isinstance(i, Err) and m.name == i.name:
@@ -140,15 +167,22 @@ def agree(m, i, tol=TOL, path=""):
         if len(m) != len(i):
             return "%s: length model=%d impl=%d" % (path or ".", len(m), len(i))
         for k, (a, b) in enumerate(zip(m, i)):
-            d = agree(a, b, tol, path + "[%d]" % k)
+            d = agree(a, b, tol, path + "[%d]" % k, stats)
             if d:
                 return d
         return None
     if isinstance(m, bool) or m is None:
         return None if m == i else "%s: model=%r impl=%r" % (path or ".", m, i)
     if isinstance(m, (Fraction, int)):
+        if isinstance(i, Fraction):         # exact execution: no tolerance
+            if stats is not None:
+                stats["eq"] = stats.get("eq", 0) + 1
+            return None if m == i else "%s: model=%s impl=%s (exact comparison; difference %.6g)" % (
+                path or ".", m, i, float(i - m))
         if isinstance(i, bool) or not isinstance(i, float):
             return "%s: model number, impl %r" % (path or ".", _short(i))
+        if stats is not None:
+            stats["tol"] = stats.get("tol", 0) + 1
         return None if close(float(m), i, tol) else "%s: model=%s (%.12g) impl=%.12g" % (
             path or ".", m, float(m), i)
     return "%s: unexpected model value %r" % (path or ".", m)
@@ -189,6 +223,20 @@ def call_impl(fn, *args, **kw):
     except EXC as e:
         return Err(type(e).__name__)
     except Exception as e:  # anything else is reported by its type name
+        return Err(type(e).__name__)
+
+
+def call_impl_exact(fn, passthrough=()):
+    """as call_impl for an exact execution: the result is canonicalised with
+    exact=True; exceptions of the types in `passthrough` are re-raised"""
+    import warnings
+    try:
+        with warnings.catch_warnings():
+            warnings.simplefilter("ignore")
+            return canon(fn(), exact=True)
+    except passthrough:
+        raise
+    except Exception as e:
         return Err(type(e).__name__)
 
 
